@@ -74,7 +74,8 @@ def gen_case(rng):
                       'dur': rng.choice([0, 0, 0.05, 0.2]),
                       'at': rng.choice([0.0, 0.05, 0.2, 0.5])})
     return {'seed': rng.randint(0, 2 ** 30), 'tasks': tasks,
-            'submit': rng.choice(['bulk', 'bulk', 'split'])}
+            'submit': rng.choice(['bulk', 'bulk', 'split']),
+            'pilots': rng.choice([1, 1, 2, 3])}
 
 
 def describe(t, root):
@@ -134,7 +135,8 @@ def run_case(ctx, res, case, idx=0):
 
     mp = None
     try:
-        mp = MiniPilot(wd, seed=case['seed'], poison=poison)
+        mp = MiniPilot(wd, seed=case['seed'], poison=poison,
+                       pilots=case.get('pilots', 1))
         for t in case['tasks']:
             with open('%s/client/in.%s' % (mp.root, t['uid']), 'w') as f:
                 f.write('data of %s\n' % t['uid'])
@@ -153,6 +155,7 @@ def run_case(ctx, res, case, idx=0):
             time.sleep(0.05)
             tasks += mp.tmgr.submit_tasks(tds[k:])
         by_uid = {t.uid: t for t in tasks}
+        res.see('pilots_per_history', case.get('pilots', 1))
 
         # cancel requests
         t0 = time.time()
